@@ -137,7 +137,32 @@ def main(argv=None):
         print(f"ERROR property={prop} infrastructure time-out: {e}")
         ctx.cleanup()
         return 2
-    except Exception:
+    except Exception as exc:
+        # An exception raised INSIDE the implementation (some frame of the traceback lies in the orix package under test)
+        # while the harness generates cases, extracts tables or builds driver requests is behaviour of the code under
+        # test: on the unchanged tree these calls succeed.  It is reported as a violation (the replay holds the traceback;
+        # no single case exists yet at that stage), never as an infrastructure error.  Everything else is exit 2.
+        tb = traceback.extract_tb(exc.__traceback__)
+        repo = os.path.realpath(os.environ.get("VERIF_REPO", "/repo"))
+        in_impl = [f for f in tb if os.path.realpath(f.filename).startswith(os.path.join(repo, "orix") + os.sep)]
+        if in_impl:
+            where = in_impl[-1]
+            what = (f"{type(exc).__name__}: {exc} raised by the implementation at {os.path.relpath(where.filename, repo)}:"
+                    f"{where.lineno} ({where.name}) while the check prepared its cases (harness frame: "
+                    f"{os.path.basename(tb[0].filename)}:{tb[0].lineno}; on the unchanged tree this call succeeds)")
+            ctx.fail("harness:implementation_raised", what,
+                     {"traceback": traceback.format_exception(type(exc), exc, exc.__traceback__)[-12:]},
+                     found_input=False, kind="corr")
+            try:
+                level = "proof"
+                try:
+                    man = json.load(open(os.path.join(VERIF, "MANIFEST.json")))
+                    level = next(c["level_claimed"]["category"] for c in man["checks"] if c["property_id"] == prop)
+                except Exception:
+                    pass
+                return common.finish(ctx, level, {}, rule="(run aborted: the implementation raised while cases were prepared)")
+            except Exception:
+                traceback.print_exc()
         print(f"ERROR property={prop} harness failure:")
         traceback.print_exc()
         ctx.cleanup()
